@@ -37,6 +37,15 @@ def run(b, ps, tier, seed):
     resv = V.run(b, ps2, tier, seed)
     res["violations"] = list(res.get("violations", [])) + list(resv.get("violations", []))
     cov = res.setdefault("coverage", {})
+    # the translated code of process/form.go (gen/FormOps.v) against the reference copy: when the agreement theorems
+    # C14_formops_* break, name the method and search for a program (lib/vlib/formopsdrift.py)
+    try:
+        from .. import formopsdrift as FD
+        fv, fcov = FD.diagnose(b, ps, PROP)
+        res["violations"] = fv + res["violations"]
+        cov["formops"] = fcov
+    except Exception as e:  # noqa: BLE001
+        cov["formops"] = {"error": repr(e)[:300]}
     cv = resv.get("coverage", {})
     cov["evaluations"] = cov.get("evaluations", 0) + cv.get("evaluations", 0)
     cov["distinct_nontrivial"] = cov.get("distinct_nontrivial", 0) + cv.get("distinct_nontrivial", 0)
